@@ -444,10 +444,11 @@ NameOf(b, i) == IF i = 0 THEN "" ELSE CNames(b)[i]
 \* Component.clearCache, so getMass() there mixes the old volume with the new densities
 ObsMass(b, i) == IF broken THEN RZero ELSE RDiv(MassOf(b, i), RInt(HInit(b)))
 Sq(x) == RMul(x, x)
+LocZ == IF mesh = <<>> THEN <<>> ELSE [b \in 1..NBk |-> RDiv(RAdd(mesh[b], mesh[b + 1]), RInt(2))]
 Obs == [zb |-> zb, zt |-> zt, h |-> h, mesh |-> mesh, placed |-> placed, broken |-> broken, err |-> err,
         loc |-> [b \in 1..NBk |-> b - 1],                      \* b.spatialLocator = a.spatialGrid[0, 0, ib]
         \* axial coordinate of each block's locator in the assembly grid (cell centre of the bounds; unobserved until set)
-        locz |-> IF mesh = <<>> THEN <<>> ELSE [b \in 1..NBk |-> RDiv(RAdd(mesh[b], mesh[b + 1]), RInt(2))],
+        locz |-> LocZ,
         total |-> zt[NBk], hsum |-> RSumSeq(h), fluid |-> ROne,
         zmid |-> [b \in 1..NBk |-> RAdd(zb[b], RDiv(h[b], RInt(2)))],
         tname |-> [b \in 1..NBk |-> NameOf(b, tname[b])],
